@@ -218,6 +218,8 @@ theorem continuous_in_masses {X : Type*} [TopologicalSpace X] (small : ℝ) (Jb 
 theorem denominator_never_zero {small : ℝ} (hs : 0 < small) (T : ℝ) : T * T + small ≠ 0 :=
   denom_ne_zero hs T
 
+example : (0 : ℝ) < eps := eps_pos
+
 /-- non-vacuity: `X = ℝ`, `T t = t`, `small = 1e-100`, one boson of mass² `t² - 1` (which changes
 sign), one fermion of mass² `t²`, `J = id`. -/
 example : Continuous (id : ℝ → ℝ) ∧ Continuous (fun t : ℝ => t) ∧
@@ -234,6 +236,8 @@ theorem continuous_single (small : ℝ) (Jb Jf : ℝ → ℝ) (hJb : Continuous 
     (Continuous fun m => oneLoopThermal (0 : ℝ) 2 Real.pi small Jb Jf T [(m, n)] []) ∧
     (Continuous fun m => oneLoopThermal (0 : ℝ) 2 Real.pi small Jb Jf T [] [(m, n)]) :=
   ⟨continuous_VT_single_boson small Jb Jf hJb T n, continuous_VT_single_fermion small Jb Jf hJf T n⟩
+
+example : Continuous (fun x : ℝ => x ^ 2) := by fun_prop
 
 /-- **Boltzmann suppression of heavy particles.**  HYPOTHESIS: `|J(x)| ≤ C e^{-√x}` for `x ≥ x₀`
 (large-argument decay of the integral; not proved here).  Then a boson (resp. fermion) of mass
@@ -270,8 +274,12 @@ def tol : Rat := 2 / 10 ^ 12
 consecutive chunks overlap in one element (single kernel computation over all 100 chunks). -/
 theorem jb_chunks_ok : chainOK h tol JbChunks = true := by decide +kernel
 
-/-- same for the `J_f` table. -/
-theorem jf_chunks_ok : chainOK h tol JfChunks = true := by decide +kernel
+/-- The two tables use literally the same abscissae (kernel comparison of all 100 chunks). -/
+theorem jb_jf_same_abscissae : JfChunks = JbChunks := by decide +kernel
+
+/-- same for the `J_f` table.  (Obtained from `jb_jf_same_abscissae` to save ~20 s of kernel time;
+`by decide +kernel` also proves it directly, should the two tables ever differ.) -/
+theorem jf_chunks_ok : chainOK h tol JfChunks = true := jb_jf_same_abscissae ▸ jb_chunks_ok
 
 /-- with tolerance `10⁻¹²` the spacing test fails (chunk 56, rows 5600–5700; also chunk 78). -/
 theorem spacing_1e12_fails :
@@ -283,6 +291,7 @@ theorem jb_chunks_adj : JbChunks.all (adjOK h tol) = true ∧ linksOK JbChunks =
   have := jb_chunks_ok
   simpa [chainOK] using this
 
+/-- per-chunk form of `jf_chunks_ok`. -/
 theorem jf_chunks_adj : JfChunks.all (adjOK h tol) = true ∧ linksOK JfChunks = true := by
   have := jf_chunks_ok
   simpa [chainOK] using this
@@ -291,6 +300,7 @@ theorem jf_chunks_adj : JfChunks.all (adjOK h tol) = true ∧ linksOK JfChunks =
 theorem jb_table_strictly_increasing : (joinChunks JbChunks).Pairwise (· < ·) :=
   chainOK_pairwise_lt jb_chunks_ok
 
+/-- The `J_f` abscissae are strictly increasing over the whole table. -/
 theorem jf_table_strictly_increasing : (joinChunks JfChunks).Pairwise (· < ·) :=
   chainOK_pairwise_lt jf_chunks_ok
 
@@ -298,6 +308,7 @@ theorem jf_table_strictly_increasing : (joinChunks JfChunks).Pairwise (· < ·) 
 theorem jb_table_length : (joinChunks JbChunks).length = JbRows ∧ JbRows = 10000 := by
   decide +kernel
 
+/-- The joined `J_f` table has `JfRows = 10000` rows. -/
 theorem jf_table_length : (joinChunks JfChunks).length = JfRows ∧ JfRows = 10000 := by
   decide +kernel
 
@@ -306,9 +317,10 @@ theorem jb_table_ends :
     (joinChunks JbChunks).head? = some (-20) ∧ (joinChunks JbChunks).getLast? = some 1000 := by
   decide +kernel
 
+/-- `J_f` table: first abscissa `-20`, last `1000`. -/
 theorem jf_table_ends :
-    (joinChunks JfChunks).head? = some (-20) ∧ (joinChunks JfChunks).getLast? = some 1000 := by
-  decide +kernel
+    (joinChunks JfChunks).head? = some (-20) ∧ (joinChunks JfChunks).getLast? = some 1000 :=
+  jb_jf_same_abscissae ▸ jb_table_ends
 
 /-- The `J_b` table spans exactly `[-20, 1000]`: it starts at `-20`, ends at `1000`, and every
 abscissa lies in between. -/
@@ -318,6 +330,7 @@ theorem jb_table_span :
   ⟨jb_table_ends.1, jb_table_ends.2,
     pairwise_lt_bounds jb_table_strictly_increasing jb_table_ends.1 jb_table_ends.2⟩
 
+/-- The `J_f` table spans exactly `[-20, 1000]`. -/
 theorem jf_table_span :
     (joinChunks JfChunks).head? = some (-20) ∧ (joinChunks JfChunks).getLast? = some 1000 ∧
       ∀ x ∈ joinChunks JfChunks, -20 ≤ x ∧ x ≤ 1000 :=
@@ -330,6 +343,7 @@ theorem jb_table_spacing (i : Nat) (hi : i + 1 < (joinChunks JbChunks).length) :
       (joinChunks JbChunks)[i + 1] - (joinChunks JbChunks)[i] ≤ h + tol :=
   (chainOK_step jb_chunks_ok i hi).2
 
+/-- Uniform spacing (local form) of the `J_f` table. -/
 theorem jf_table_spacing (i : Nat) (hi : i + 1 < (joinChunks JfChunks).length) :
     h - tol ≤ (joinChunks JfChunks)[i + 1] - (joinChunks JfChunks)[i] ∧
       (joinChunks JfChunks)[i + 1] - (joinChunks JfChunks)[i] ≤ h + tol :=
@@ -343,9 +357,6 @@ theorem jb_grid_ok :
     gridOK (-20 - 6 / 10 ^ 13) (-20 + 6 / 10 ^ 13) (1020 / 9999) 0 (joinChunks JbChunks) = true := by
   decide +kernel
 
-/-- The two tables use literally the same abscissae. -/
-theorem jb_jf_same_abscissae : JfChunks = JbChunks := by decide +kernel
-
 /-- Uniform spacing (global form): row `i` of the `J_b` table is `numpy.linspace(-20, 1000, 10000)[i]`
 up to the rounding of the text file: `|x_i - (-20 + i·1020/9999)| ≤ 6·10⁻¹³`. -/
 theorem jb_table_linspace (i : Nat) (hi : i < (joinChunks JbChunks).length) :
@@ -355,6 +366,7 @@ theorem jb_table_linspace (i : Nat) (hi : i < (joinChunks JbChunks).length) :
   simp only [Nat.zero_add] at this
   constructor <;> linarith [this.1, this.2]
 
+/-- Uniform spacing (global form) of the `J_f` table (via `jb_jf_same_abscissae`). -/
 theorem jf_table_linspace (i : Nat) (hi : i < (joinChunks JfChunks).length) :
     -20 + (i : Rat) * (1020 / 9999) - 6 / 10 ^ 13 ≤ (joinChunks JfChunks)[i] ∧
       (joinChunks JfChunks)[i] ≤ -20 + (i : Rat) * (1020 / 9999) + 6 / 10 ^ 13 := by
